@@ -202,17 +202,19 @@ Record dstate := mkD { d_ids : list nat; d_fw : bool; d_match : bool; d_mwb : bo
 (* dfa/lazy/config.go: Config (CacheCapacityBytes / MaxStates folded by effectiveCapacityBytes)
    plus the byte classes of the NFA (nfa/alphabet.go) as runs (last byte of the run, class).
    The last two fields are NOT Go configuration: they select the ORIGINAL variants of two
-   functions repaired in /repo (false false false = the current code):
+   functions repaired in /repo (all false = the current code):
      cfg_sorted_key   before 33a0339 the determinizer keyed the cache by the SORTED id set
      cfg_loose_accel  before fd804d1 the loops used DetectAccelerationFromFlat
      cfg_old_entry    before bde2710 a search starting at len(haystack) was answered by
                       matchesEmpty (the EMPTY haystack) and the NFA fallback of SearchAtAnchored
                       was the unanchored search; before ce6ce59 getStartState returned a start
-                      state without id when the cache was full *)
+                      state without id when the cache was full
+     cfg_accel_no_eoi before edee2be searchAt / searchEarliestMatch returned lastMatch / false when
+                      memchr found no exit byte, without the end-of-input check *)
 Record dconfig := mkCfg {
   cfg_cap : nat; cfg_max_clears : nat; cfg_det_limit : nat; cfg_break : bool;
   cfg_stride : nat; cfg_classes : list (N * nat);
-  cfg_sorted_key : bool; cfg_loose_accel : bool; cfg_old_entry : bool }.
+  cfg_sorted_key : bool; cfg_loose_accel : bool; cfg_old_entry : bool; cfg_accel_no_eoi : bool }.
 
 (* dfa/lazy/state.go: computeOrderedStateKey — the hash of (flags, ids IN ORDER); the original
    ComputeStateKeyWithWordAndMatch hashed the sorted ids.  Hash collisions are not modelled. *)
@@ -261,7 +263,8 @@ Definition pdet (A : nfa) (cfg : dconfig) (cur : dstate) (b : N) : dres :=
   if (length next =? 0) && negb src_match then DDead
   else if cfg_det_limit cfg <? length next then DLimit
   else
-    let wbf := has_wb A && negb src_match in
+    (* only a match that the assertion ADDS counts (8fdf457) *)
+    let wbf := has_wb A && negb src_match && negb (contains_match A next) in
     DNext (mkD next (is_word_byte b) src_match
                (wbf && contains_match A (resolve_wb A next true))
                (wbf && contains_match A (resolve_wb A next false))).
@@ -278,6 +281,7 @@ Definition wb_fast (d : dstate) (b : N) : bool :=
 (* dfa/lazy/lazy.go: checkWordBoundaryMatch *)
 Definition wb_slow (A : nfa) (d : dstate) (b : N) : bool :=
   if d_match d then false
+  else if contains_match A (d_ids d) then false
   else contains_match A (resolve_wb A (d_ids d) (negb (eqb (d_fw d) (is_word_byte b)))).
 
 (* ------------------------------------------------------------------ results *)
@@ -843,7 +847,10 @@ Section Cached.
                   let ex := accel_bytes c1 sid in
                   let jump := match ex with [] => Some pos | _ => accelerate h pos ex end in
                   match jump with
-                  | None => (c1, inl (RDfa last))
+                  | None =>
+                      (* no exit byte: on to the end-of-input check (edee2be) *)
+                      if cfg_accel_no_eoi cfg then (c1, inl (RDfa last))
+                      else (c1, inl (RDfa (if eoi_of c1 sid then Some (length h) else last)))
                   | Some pos' =>
                       let b := byte_at h pos' in
                       if has_wb A && (match get_state c1 sid with Some s => wb_slow A (cs_d s) b | None => false end)
@@ -882,7 +889,9 @@ Section Cached.
                   let ex := accel_bytes c1 sid in
                   let jump := match ex with [] => Some pos | _ => accelerate h pos ex end in
                   match jump with
-                  | None => (c1, inl (RDfa false))
+                  | None =>
+                      if cfg_accel_no_eoi cfg then (c1, inl (RDfa false))
+                      else (c1, inl (RDfa (eoi_of c1 sid)))
                   | Some pos' =>
                       let b := byte_at h pos' in
                       if has_wb A && (match get_state c1 sid with Some s => wb_fast (cs_d s) b | None => false end)
